@@ -215,6 +215,17 @@ func (b *mbox) contains(x *mbox) bool {
 	return false
 }
 
+// pseudoAncestors counts the pseudo contexts between b and its nearest enclosing stacking context.
+func (b *mbox) pseudoAncestors() int {
+	n := 0
+	for a := b.parent; a != nil && !a.scLike; a = a.parent {
+		if a.pseudo {
+			n++
+		}
+	}
+	return n
+}
+
 type model struct {
 	root  *mbox
 	boxes []*mbox // index id-1, pre-order
@@ -458,7 +469,7 @@ func (m *model) reach() []string {
 	all := append([]*mbox{m.root}, m.boxes...)
 	for _, b := range all {
 		zs := map[int]int{}
-		for _, it := range b.items {
+		for ii, it := range b.items {
 			z := it.zlevel()
 			zs[z]++
 			switch {
@@ -473,6 +484,21 @@ func (m *model) reach() []string {
 			for a := it.parent; a != b; a = a.parent {
 				if a.pseudo {
 					set["positioned descendant hoisted out of a pseudo context"] = true
+				}
+			}
+			if n := it.pseudoAncestors(); n >= 1 {
+				if n >= 2 {
+					set["positioned descendant hoisted out of two nested pseudo contexts"] = true
+				}
+				// the list of the real context is not empty when the hoisted box is inserted, and the
+				// earlier item is not one of its own pseudo ancestors: the insertion index matters
+				for _, e := range b.items[:ii] {
+					if !e.contains(it) {
+						set["hoisted positioned descendant inserted after an earlier item of the same context"] = true
+						if it.zlevel() == e.zlevel() {
+							set["hoisted positioned descendant tied with an earlier item of the same context"] = true
+						}
+					}
 				}
 			}
 		}
